@@ -128,6 +128,16 @@ pub fn clamp_instant(t: i128) -> i128 {
 
 /// advance between events: nothing, a little, hours (>= one midnight), days, months, years
 pub fn advance(r: &mut Rng, t: i128) -> i128 {
+    if r.chance(1, 16) {
+        // the wall clock is set BACK between two calls: by seconds, hours, or to before the last midnight / New Year
+        let back: i128 = match r.below(4) {
+            0 => (1 + r.below(120)) as i128 * NS,
+            1 => (1 + r.below(30)) as i128 * 3600 * NS,
+            2 => t.rem_euclid(DAY_NS) + 1 + r.below(3_000_000_000) as i128,
+            _ => { let (y, _, _) = crate::clock::utc_date(t); t - instant(y, 1, 1, 0, 0, 0) + 1 + r.below(3_000_000_000) as i128 }
+        };
+        return clamp_instant(t - back);
+    }
     let dt: i128 = match r.below(12) {
         0 | 1 | 2 | 3 => 0,
         4 => r.below(1_000_000) as i128,
